@@ -11,7 +11,7 @@ import pyref
 FAMILY = "cpc"
 CORR = "Cpc"               # Coq module DS.Corr.Cpc
 FAMNUM = 7
-ORACLES = {"prop_ok": 0, "union_ok": 1, "extremes_ok": 2, "layout_ok": 3, "malformed_ok": 4}
+ORACLES = {"prop_ok": 0, "union_ok": 1, "extremes_ok": 2, "layout_ok": 3, "malformed_ok": 4, "malformed_tie_ok": 5}
 GEN_MODULES = [("GenCpc",
                 ["cpc/mod.rs", "cpc/sketch.rs", "cpc/pair_table.rs", "cpc/kxp_byte_lookup.rs", "common/inv_pow2_table.rs"],
                 ["MIN_LG_K", "MAX_LG_K", "KXP_BYTE_TABLE", "INVERSE_POWERS_OF_2",
@@ -39,8 +39,9 @@ GEN_MODULES = [("GenCpc",
                                   "or_matrix_into_matrix", "walk_table_updating_sketch"]})]
 OPNAMES = {0: "new", 1: "update", 2: "row_col", 3: "dump", 4: "validate", 5: "matrix", 6: "flavor_of", 7: "offset_of",
            8: "estimate", 9: "phase_of", 18: "roundtrip", 19: "ser", 17: "sk_ser", 30: "big", 32: "max_bytes", 40: "deser", 41: "mut_deser", 10: "sk_new", 11: "sk_rc", 12: "sk_item", 13: "sk_dump", 14: "sk_validate", 15: "sk_matrix",
-           16: "sk_roundtrip", 20: "un_new", 21: "un_update", 22: "un_state", 23: "un_result"}
+           16: "sk_roundtrip", 24: "sk_reread", 20: "un_new", 21: "un_update", 22: "un_state", 23: "un_result"}
 U32MAX = 2**32 - 1
+PANIC_OBS = [-999]
 
 
 def correct_offset(lgk, c):
@@ -726,8 +727,61 @@ def gen_malformed_case(rng, cid, tier, kind, lgk):
     return Case(cid, c.cfg, ops, tag="cpc-malformed-%s-lg%d" % (kind, lgk))
 
 
-def gen_malformed(rng, tier, n):
+def gen_edge_image_case(rng, cid, tier, lgk, variant):
+    """C14: the sketch's own, unmodified image (mutation 'append 0 bytes') of a state next to the edge of the domain:
+    'offset': full columns up to C = (475K - 1) / 8 - j (the next updates push the window offset beyond 56);
+    'table' : the surprising-value table within a few pairs of its capacity.  deserialize accepts these valid images; whether
+    the 40 further updates / the union of the harness then panic is decided by the model (oracle malformed_tie_ok)"""
+    k = 1 << lgk
+    b = Builder(rng, lgk, 9001, dump_budget=0)
+    b.cost_budget *= 40
+    ident = (41, [4, 0, 0])
+    if variant == "offset":
+        cmax = (475 * k - 1) // 8
+        stops = sorted({cmax - j for j in (0, 1, 3, 20, 39, 40, 45, 200)})
+        for col in range(64):
+            rows = list(range(k)); rng.shuffle(rows)
+            for r in rows:
+                if not b.rc((r << 6) | col):
+                    break
+                if b.sim.c in stops:
+                    b.ops += [(3, []), ident]
+    else:
+        cols = list(range(63, 20, -1))
+        left = rng.choice([0, 1, 5, 30, 60])
+        done = False
+        for col in cols:
+            rows = list(range(k)); rng.shuffle(rows)
+            for r in rows:
+                rc = (r << 6) | col
+                if 8 * (b.sim.c + 1) >= 475 * k or b.sim.overflows(rc):
+                    done = True; break
+                b.rc(rc)
+                c, nsv = b.sim.surprises_after(rc)
+                if b.sim.cap() - nsv <= left:
+                    done = True; break
+            if done:
+                break
+        b.ops += [(3, []), ident]
+    return Case(cid, [lgk, 9001], b.ops, tag="cpc-malformed-edge-%s-lg%d" % (variant, lgk))
+
+
+# the reviewer's replay: lg_k 4, columns 5..63 full + rows 0..4 of column 4, C = 949 (8C = 7592 < 7600): accepted, validate() true
+EDGE_IMAGE_949 = bytes.fromhex(
+    "0a011004001ecc93b50300004b0000000000000000b02e40eed3812ba7968e400600000007000000ffffffffffffffffffffffffffffffffffffffff"
+    "ffffffff00000000aa54a952a54a55aa5295aa54a52a55a94a55aa5215000000")
+
+
+def gen_malformed_edge(rng, tier, n):
     cases = []
+    for lgk, variant in [(4, "offset"), (5, "offset"), (4, "table"), (4, "table"), (5, "table"), (6, "table")]:
+        cases.append(gen_edge_image_case(rng, len(cases), tier, lgk, variant))
+    cases.append(Case(len(cases), [4, 9001], [(40, list(EDGE_IMAGE_949))], tag="cpc-malformed-edge-image949"))
+    return cases
+
+
+def gen_malformed(rng, tier, n):
+    cases = gen_malformed_edge(rng, tier, n)
     plan_m = [("colfill", 4), ("colfill", 5), ("fullcols", 4), ("fullcols", 6), ("hashed", 4), ("hashed", 6), ("hashed", 8),
               ("hashed", 10), ("random", 5), ("random", 7), ("random", 9), ("rtl", 4), ("rtl", 6), ("colfill", 8), ("hashed", 12)]
     if tier != "quick":
@@ -744,7 +798,10 @@ def gen_malformed(rng, tier, n):
         b = [rng.randrange(256) for _ in range(ln)]
         if ln >= 8 and rng.random() < 0.8:
             b[0] = rng.choice([2, 4, 6, 8, 10, rng.randrange(256)]); b[1] = 1; b[2] = 16
-            b[3] = rng.choice([4, 5, 10, 12, 13, 27, 3, 63, 255]);   # (an accepted lg_k 26 image costs the model's invariant check minutes) b[4] = rng.choice([0, 0, 1, 63, 64]); b[5] = 2 | (rng.randrange(8) << 2)
+            # (lg_k 26 is left out: an accepted lg_k 26 image costs the model's invariant check minutes)
+            b[3] = rng.choice([4, 5, 10, 12, 13, 27, 3, 63, 255])
+            b[4] = rng.choice([0, 0, 1, 63, 64])
+            b[5] = 2 | (rng.randrange(8) << 2)
             sh = pyref.seed_hash(9001); b[6] = sh & 255; b[7] = sh >> 8
             if ln >= 12 and rng.random() < 0.7:
                 c = rng.choice([0, 1, 2, 5, 100, 1 << 20, 0xffffffff])
@@ -773,7 +830,226 @@ def gen_overflow(rng, tier, n):
     return [gen_case(rng, i, tier, kind, lgk) for i, (kind, lgk) in enumerate(p)]
 
 
+def gen_union_edge(rng, tier, n):
+    """C06 boundary leg: unions of valid sketches that leave the domain of the union code (model Stuck = crate panic):
+    (a) a sparse lg_k 13 source with few rows and far-right columns walked into a lg_k 4 accumulator (case A / reduce_k):
+        the accumulator's table outgrows its capacity in the middle of the walk;
+    (b) two lg_k 4 sketches of disjoint far-right columns: the updates are fine (bit matrix), to_sketch cannot store the
+        surprising values (ones right of the window + zeros left of it);
+    (c) two lg_k 4 sketches whose union holds >= 59.375 K coupons: to_sketch returns a sketch with offset > 56 whose own
+        image the crate's deserialize rejects (op sk_reread answers [0])."""
+    cases = []
+
+    def feed(b, slot, sim, rcs):
+        for rc in rcs:
+            if sim.has(rc):
+                continue
+            if not sim.ok(rc):
+                return False
+            sim.add(rc); b.ops.append((11, [slot, rc]))
+        return True
+
+    def sketch_of(b, lgk, rcs, roundtrip):
+        slot = b.nslot; b.nslot += 1
+        b.ops.append((10, [slot, lgk]))
+        sim = Sim(lgk); b.sims[slot] = sim
+        ok = feed(b, slot, sim, rcs)
+        if roundtrip:
+            b.ops.append((16, [slot]))
+        return slot, ok
+
+    reps = 2 if tier == "quick" else 8
+    for rep in range(reps):
+        # (a)
+        for lg_src, lg_u in [(13, 4), (13, 5), (12, 4)]:
+            b = UBuilder(rng, 9001)
+            nrows = 1 << lg_u
+            c0 = rng.choice([40, 36, 30])
+            rcs = [(((r + nrows * rng.randrange(1 << (lg_src - lg_u))) << 6) | col) for col in range(c0, 64) for r in range(nrows)]
+            rng.shuffle(rcs)
+            rcs = rcs[:(3 * (1 << lg_src)) // 32 - 1]           # the source stays sparse
+            slot, ok = sketch_of(b, lg_src, rcs, rep % 2 == 0)
+            b.ops += [(20, [0, lg_u]), (21, [0, slot]), (22, [0]), (23, [0, b.nslot])]
+            cases.append(Case(len(cases), [lg_u, 9001], b.ops, tag="cpcunion-edge-a-lg%d" % lg_src))
+        # (b)
+        for lgk in (4, 5):
+            k = 1 << lgk
+            b = UBuilder(rng, 9001)
+            lo = rng.choice([40, 38, 44])
+            mid = (lo + 64) // 2
+            sl = []
+            for cols in (range(lo, mid), range(mid, 64)):
+                rcs = [((r << 6) | col) for col in cols for r in range(k)]
+                rng.shuffle(rcs)
+                slot, ok = sketch_of(b, lgk, rcs, rep % 2 == 1)
+                sl.append(slot)
+            res = b.nslot
+            b.ops += [(20, [0, lgk]), (21, [0, sl[0]]), (21, [0, sl[1]]), (22, [0]), (23, [0, res]), (13, [res])]
+            cases.append(Case(len(cases), [lgk, 9001], b.ops, tag="cpcunion-edge-b-lg%d" % lgk))
+        # (c)
+        for lgk in (4, 5):
+            k = 1 << lgk
+            b = UBuilder(rng, 9001)
+            split = rng.choice([59, 58, 57])
+            miss = rng.choice([0, 0, 3, k])                       # pairs missing from the full matrix
+            allrc = [((r << 6) | col) for col in range(64) for r in range(k)]
+            left = [rc for rc in allrc if (rc & 63) < split]
+            right = [rc for rc in allrc if (rc & 63) >= split]
+            if miss:
+                left = left[:-miss]
+            rng.shuffle(right)
+            s1, _ = sketch_of(b, lgk, left, False)
+            s2, _ = sketch_of(b, lgk, right, rep % 2 == 0)
+            res = b.nslot
+            b.ops += [(20, [0, lgk]), (21, [0, s1]), (21, [0, s2]), (22, [0]), (23, [0, res]), (24, [res]), (13, [res])]
+            cases.append(Case(len(cases), [lgk, 9001], b.ops, tag="cpcunion-edge-c-lg%d" % lgk))
+    if n is not None:
+        cases = cases[:n]
+    return cases
+
+
+# ---------------------------------------------------------------------------------------------- known-finding matchers
+def _sim_of_dump(d):
+    """exact matrix of a float-free dump [lg_k; C; off; fic; flavor; merge; |win|; win..; |tab|; tab..]"""
+    lgk, c, off = d[0], d[1], d[2]
+    nwin = d[6]
+    win = d[7:7 + nwin]
+    tab = d[8 + nwin:]
+    sim = Sim(lgk)
+    k = 1 << lgk
+    if nwin == 0:
+        for rc in tab:
+            sim.add(rc)
+        return sim
+    sv = set(tab)
+    for r in range(k):
+        for col in range(64):
+            if col < off:
+                bit = 0 if ((r << 6) | col) in sv else 1
+            elif col < off + 8:
+                bit = (win[r] >> (col - off)) & 1
+            else:
+                bit = 1 if ((r << 6) | col) in sv else 0
+            if bit:
+                sim.add((r << 6) | col)
+    return sim
+
+
+def use_pairs(lgk):
+    k = 1 << lgk
+    out = []
+    for i in range(40):
+        row = (i * 37 + 11) % k
+        col = (63 - i % 5) if i % 4 == 3 else (i * 5) % 9
+        rc = (row << 6) | col
+        if rc != U32MAX:
+            out.append(rc)
+    return out
+
+
+def _matrix_overflows(sim):
+    """a sketch of exactly this matrix cannot be built: offset > 56, or more surprising values than the table holds"""
+    if 8 * sim.c >= 475 * sim.k:
+        return True
+    if 32 * sim.c < 3 * sim.k:
+        return sim.c > sim.cap()
+    off = sim.offset()
+    n = sum((sim.k - sim.cols[j]) if j < off else (sim.cols[j] if j >= off + 8 else 0) for j in range(64))
+    return n > sim.cap()
+
+
+def _may_overflow(sim):
+    """necessary for a table overflow on the way to this matrix, in whatever order its pairs arrive: all coupons plus all
+    positions left of the final window exceed the capacity (or the matrix is beyond offset 56)"""
+    return 8 * sim.c >= 475 * sim.k or sim.c + sim.offset() * sim.k > sim.cap()
+
+
+def kf_image_at_domain_edge(case):
+    """known finding C14-cpc-image-at-domain-edge: every accepted image of the case whose use phase failed is a VALID image
+    whose state is next to the edge of the sketch's domain: replayed on the exact matrix of the dump, the 40 pairs of the
+    harness push the window offset beyond 56 (8C >= 475K) or the surprising values beyond the table's capacity, resp. the union
+    of the value with its updated copy does.  Anything else (wrapper disagreement, a panic far from the edge) is not matched."""
+    hits = 0
+    for (code, a), o in zip(case.ops, case.obs or []):
+        if code not in (40, 41) or o[:1] != [1] or len(o) < 12:
+            continue
+        w, up, un = o[1], o[2], o[3]
+        if (up, un) == (1, 1):
+            continue
+        if w != 1:
+            return False
+        sim = _sim_of_dump(o[4:])
+        leaves = False
+        for rc in use_pairs(sim.lgk):
+            if (rc >> 6) < sim.k and not sim.has(rc):
+                if not sim.ok(rc):
+                    leaves = True
+                    break
+                sim.add(rc)
+        if up == 0 and not leaves:
+            return False
+        if up == 1 and leaves:
+            return False
+        if un == 0 and not (_matrix_overflows(sim) or _may_overflow(sim)):
+            return False
+        hits += 1
+    return hits > 0
+
+
+def kf_union_capacity(case):
+    """known findings c06-cpc-union-table-capacity / c06-cpc-union-result-outside-domain: the first failing op of the case
+    is a union op on a union whose exact OR-of-folded-matrices (recomputed here from the offered pairs) is in the
+    capacity situation: un_update (op 21) panics and the new union matrix may overflow a table on the way (all coupons +
+    all positions left of the window > capacity, or 8C >= 475K); un_result (op 23) panics and the matrix cannot be stored
+    (exact); sk_reread (op 24) answers [0] or sk_validate (14) panics on a result with 8C >= 475K."""
+    sks, uns = {}, {}
+    obs = case.obs or []
+    for i, (code, a) in enumerate(case.ops):
+        o = obs[i] if i < len(obs) else PANIC_OBS
+        bad = (o == PANIC_OBS)
+        if code == 10:
+            sks[a[0]] = Sim(a[1])
+        elif code == 11 and a[0] in sks:
+            if bad:
+                return False
+            sks[a[0]].add(a[1])
+        elif code == 12:
+            return False                       # hashed items are not used by the boundary leg
+        elif code == 20:
+            uns[a[0]] = Sim(a[1])
+        elif code == 21 and a[0] in uns and a[1] in sks:
+            u, s = uns[a[0]], sks[a[1]]
+            if s.c:
+                lg = min(u.lgk, s.lgk)
+                nu = Sim(lg)
+                for src in (u, s):
+                    for r, wd in src.rows.items():
+                        for col in range(64):
+                            if (wd >> col) & 1:
+                                nu.add(((r & ((1 << lg) - 1)) << 6) | col)
+                uns[a[0]] = nu
+            if bad:
+                return _may_overflow(uns[a[0]])
+        elif code == 23 and a[0] in uns:
+            if bad:
+                return _matrix_overflows(uns[a[0]])
+            sks[a[1]] = uns[a[0]]
+        elif code == 24 and a[0] in sks:
+            if bad or o == [0]:
+                return 8 * sks[a[0]].c >= 475 * sks[a[0]].k
+        elif code == 14 and a[0] in sks:
+            if bad:
+                return 8 * sks[a[0]].c >= 475 * sks[a[0]].k
+        elif bad:
+            return False
+    return False
+
+
 def gen(rng, tier, n=None, focus=None):
+    if focus == "union_edge":
+        return gen_union_edge(rng, tier, n)
+    if focus == "malformed_edge":
+        return gen_malformed_edge(rng, tier, n)
     if focus == "overflow":
         return gen_overflow(rng, tier, n)
     if focus == "size":
@@ -800,6 +1076,8 @@ def nontrivial(case, obs):
     """C05: at least two distinct pairs were offered and the state was observed at least once;
     C06: at least two union updates and one result were taken"""
     if any(c in (9, 30, 32, 40, 41) for (c, a) in case.ops):
+        return True
+    if (case.tag or '').startswith('cpcunion-edge'):
         return True
     if any(c == 20 for (c, a) in case.ops):
         return sum(1 for (c, a) in case.ops if c == 21) >= 2 and any(c == 23 for (c, a) in case.ops)
